@@ -1,6 +1,7 @@
 package props
 
 import (
+	"fmt"
 	"math/rand"
 
 	"bsim/gen"
@@ -106,6 +107,40 @@ func genC08(r *rand.Rand, run int, tier string) *vm.Plan {
 		}
 	}
 	_ = gen.TrueQuery
+	// authorization behaviour is part of a token's observable content: the same request is put to
+	// up to three tokens of the family early (right after the first steps) and again at the very
+	// end; the two answers of each token form an agreement group (model-free)
+	if r.Intn(2) == 0 {
+		az := h.az[0]
+		var early, late []vm.Op
+		for i, t := range h.toks {
+			if i >= 3 {
+				break
+			}
+			name := fmt.Sprintf("behaviour-%d", t)
+			op := vm.Op{K: "verify", A: t, KS: &vm.KeySel{Key: key}, Az: &az, Lim: &vm.Lim{MaxDurNs: 2e6}, Name: name}
+			early = append(early, op)
+			late = append(late, op)
+		}
+		// insert the early observations after the operations that created these tokens
+		cut := 0
+		for i, op := range h.p.Ops {
+			for _, e := range early {
+				if op.Out == e.A {
+					cut = i + 1
+				}
+			}
+		}
+		ops := append([]vm.Op{}, h.p.Ops[:cut]...)
+		ops = append(ops, early...)
+		ops = append(ops, h.p.Ops[cut:]...)
+		h.p.Ops = append(ops, late...)
+		// and a quarter of these runs evaluate under clock stalls, with goroutines that outlive a
+		// timed-out evaluation left running during the operations that follow
+		if r.Intn(2) == 0 {
+			schedule(r, h.p, "stall", 1e9, 20+r.Intn(300))
+		}
+	}
 	return h.p
 }
 
@@ -115,7 +150,7 @@ func init() {
 		Rule: "interleaved histories (6-40 steps) over a growing family of tokens, token builders, block builders and built blocks sharing ancestors: create-block (several builders alive per parent), add to builder A / builder B, build block, append, build a token again from a used builder, seal, serialize, reload, get-block-id with fresh symbols, authorize, print. After EVERY step the fingerprint (String, Code, serialized bytes, revocation ids, block count, root key id, context) of EVERY live token and built block is recomputed and must be unchanged; on creation each token's bytes are decoded independently and must equal what its own callers put in. non-trivial = at least two live objects were re-fingerprinted after a deriving step (distinct by plan hash)",
 		Gen: genC08,
 		Oracles: func(m *vm.VM) []vm.Oracle {
-			return []vm.Oracle{vm.Common{Prop: "C08"}, vm.ImmutOracle{Prop: "C08"}, vm.RootIDOracle{}, vm.RevocationOracle{}, vm.WireOracle{}}
+			return []vm.Oracle{vm.Common{Prop: "C08"}, vm.ImmutOracle{Prop: "C08"}, vm.AgreeOracle{Prop: "C08", Invariant: "authorization-behaviour-changed", Failed: true, SameAz: true}, vm.RootIDOracle{}, vm.RevocationOracle{}, vm.WireOracle{}}
 		},
 		Nontrivial: func(res *vm.Result) bool { return res.Probes["immut_checked_2plus_live_objects"] > 0 },
 		Real:       realAll, Simulated: simAll[2:4], Assumptions: assumeAll[:2],
